@@ -1,9 +1,7 @@
 package main
 
 import (
-	"fmt"
 	"go/token"
-	"go/types"
 
 	"golang.org/x/tools/go/ssa"
 )
@@ -12,10 +10,10 @@ func init() {
 	register(&propDef{
 		ID:      "C12",
 		Level:   "other",
-		Explain: "Gate dominance and fail-closed decisions, decided on every CFG path: (G1) in HTTPProxy.ServeHTTP every upstream-contact site and the redirect response is dominated by the false edge of Target.AccessDeniedHTTP and the true edge of Target.Authorized, both applied to the looked-up target; (G2) in every tcp.Handler implementation every dial is dominated by the false edge of AccessDeniedTCP on the target whose address is dialled; (S1) the deny edges answer 403/401 and return; (F1) decision functions deny on anomaly edges (nil parsed IP with rules configured, unknown auth scheme); (F2) a failing ProcessAccessRules in addTarget leaves a deny-all rule set; (F3) in denyByIP an allow list returns 'not denied' only under Contains==true and denies at the end, a deny list denies under Contains==true; (X1) the X-Forwarded-For loop cannot be left early except by denying. (A1) an auth scheme answers true only from the Match of its credential store on this request. (X1) the text of an X-Forwarded-For element handed to net.ParseIP is the element itself (split/trim), with no substring surgery on the way; Not decided: CIDR arithmetic of net.IPNet.Contains, credential checking of the auth schemes (values).",
+		Explain: "Gate dominance and fail-closed decisions, decided on every CFG path; the exported methods (HTTPProxy.ServeHTTP, every ServeTCP, Target.AccessDeniedHTTP / AccessDeniedTCP / Authorized / ProcessAccessRules, the auth schemes' Authorized) are named, everything else is found by role, and a verdict counts wherever it is established (directly, through bool / status-code / error helpers, flags, && and ||, in the entry point or in a helper it calls): (G1) every upstream-contact site and every redirect reachable from HTTPProxy.ServeHTTP lies behind AccessDeniedHTTP()==false and Authorized()==true, both applied to the target the route lookup returned; (G2) in every tcp.Handler implementation every dial lies behind AccessDeniedTCP()==false on the looked-up target, and the dialled address stems from that very lookup; (S1) the deny edges answer 403/401 and go on to no gated effect; (F1) decision functions deny on anomaly edges (nil parsed IP with rules configured, unknown auth scheme) and AccessDeniedHTTP/TCP answer `not denied` without consulting the per-address decision only on the no-rules edge and the trusted anomalies; (F2) wherever ProcessAccessRules is called, its error edge installs a deny-all rule set (an allow tag without blocks) or gives the target up; (F3) the per-address decision (bool function of package route that consults Target.accessRules by tag and net.IPNet.Contains): with the allow tag present `not denied` only under Contains==true and `denied` otherwise, with the deny tag present `denied` under Contains==true, each of these outcomes present; (X1) the X-Forwarded-For walk puts elements to the per-address decision, can be left early only by denying, a denying verdict is returned by AccessDeniedHTTP/TCP, and both the peer address and the X-Forwarded-For elements are put to it; (A1) an auth scheme answers true only from the Match of its credential store on this request; (X1) the text of an X-Forwarded-For element handed to net.ParseIP is the element itself (split/trimmed at characters no address contains), with no substring surgery on the way. Not decided: CIDR arithmetic of net.IPNet.Contains, credential checking of the auth schemes (values).",
 		Run:     runC12,
 		Trusted: []string{"net/http sets Request.RemoteAddr to ip:port (SplitHostPort cannot fail there)", "all fabio listeners yield *net.TCPAddr remote addresses", "net.IPNet.Contains implements CIDR membership"},
-		Mutants: []mutant{
+		Mutants: append([]mutant{
 			{Name: "port stripped from X-Forwarded-For elements at the last colon", File: "route/access_rules.go", Old: "\t\t\txip = strings.TrimSpace(xip)\n", New: "\t\t\txip = strings.TrimSpace(xip)\n\t\t\tif i := strings.LastIndexByte(xip, ':'); i > 0 {\n\t\t\t\txip = xip[:i]\n\t\t\t}\n", Expect: "C12.X1"},
 			{Name: "benign: element trimmed with strings.Trim", File: "route/access_rules.go", Old: "\t\t\txip = strings.TrimSpace(xip)\n", New: "\t\t\txip = strings.Trim(xip, \" \\t\")\n", Expect: ""},
 
@@ -38,7 +36,7 @@ func init() {
 			{Name: "helper that admits on the access-denied edge", File: "proxy/http_proxy.go", Old: "\tif t.AccessDeniedHTTP(r) {\n\t\thttp.Error(w, \"access denied\", http.StatusForbidden)\n\t\treturn\n\t}\n\n\tif !t.Authorized(r, w, p.AuthSchemes) {\n\t\thttp.Error(w, \"authorization failed\", http.StatusUnauthorized)\n\t\treturn\n\t}\n", New: "\tif !p.admit(w, r, t) {\n\t\treturn\n\t}\n", Expect: "C12.G1",
 				More: []repl{{"func key(code int) string {", "func (p *HTTPProxy) admit(w http.ResponseWriter, r *http.Request, t *route.Target) bool {\n\tif t.AccessDeniedHTTP(r) {\n\t\tw.Header().Set(\"X-Denied\", \"1\")\n\t}\n\tif !t.Authorized(r, w, p.AuthSchemes) {\n\t\thttp.Error(w, \"authorization failed\", http.StatusUnauthorized)\n\t\treturn false\n\t}\n\treturn true\n}\n\nfunc key(code int) string {"}}},
 			{Name: "benign: gate helper", File: "proxy/http_proxy.go", Old: "\tif t.AccessDeniedHTTP(r) {\n\t\thttp.Error(w, \"access denied\", http.StatusForbidden)\n\t\treturn\n\t}", New: "\tdenied := t.AccessDeniedHTTP(r)\n\tif denied {\n\t\thttp.Error(w, \"access denied\", http.StatusForbidden)\n\t\treturn\n\t}", Expect: ""},
-		},
+		}, c12MoreMutants()...),
 	})
 }
 
@@ -64,418 +62,6 @@ func isLookupFieldCall(v ssa.Value) bool {
 	return ok && fieldName(fa.X.Type(), fa.Field) == "Lookup"
 }
 
-// runGateHTTP implements G1 (also used by C13.G1 and C07.G1 with other rule ids).
-// withAuth: require the access + auth gates; otherwise only the t != nil gate.
-func runGateHTTP(c *Ctx, rule string, withAuth bool) {
-	serve := c.method("proxy", "HTTPProxy", "ServeHTTP")
-	if !c.need(rule, serve, "proxy.HTTPProxy.ServeHTTP") {
-		return
-	}
-	denied := c.method("route", "Target", "AccessDeniedHTTP")
-	auth := c.method("route", "Target", "Authorized")
-	if withAuth && (!c.need(rule, denied, "route.Target.AccessDeniedHTTP") || !c.need(rule, auth, "route.Target.Authorized")) {
-		return
-	}
-	sites := c.contactSites(serve)
-	// the redirect response counts as a gated effect too
-	for _, i := range callsTo(serve, "net/http.Redirect") {
-		sites[i] = "calls net/http.Redirect"
-	}
-	n := 0
-	for i, how := range sites {
-		n++
-		key := "proxy.(*HTTPProxy).ServeHTTP|" + siteKey(how)
-		b := i.Block()
-		if withAuth {
-			rd := gateReceiver(b, denied, false, 0)
-			ra := gateReceiver(b, auth, true, 0)
-			ok := rd != nil && ra != nil
-			detail := how + " must be dominated by AccessDeniedHTTP()==false and Authorized()==true"
-			if ok {
-				// both on the looked-up target
-				if rd != ra || !isLookupFieldCall(rd) {
-					ok = false
-					detail = how + ": the access and auth gates must both be applied to the target returned by p.Lookup"
-				}
-			}
-			c.check(rule, key, i.Pos(), ok, detail)
-		} else {
-			// t != nil gate
-			ok := false
-			for _, f := range factsAt(b) {
-				if nn, isNil := nilFact(f, isLookupFieldCall); isNil && nn {
-					ok = true
-				}
-			}
-			c.check(rule, key, i.Pos(), ok, how+" must be dominated by the `target != nil` edge of the route lookup (no upstream may be contacted for a request without a route)")
-		}
-	}
-	c.atLeast(rule, "upstream-contact sites in HTTPProxy.ServeHTTP", n, 3)
-
-	if !withAuth {
-		return
-	}
-	// S1: deny edges answer 403 / 401 and return
-	for _, g := range []struct {
-		fn    *ssa.Function
-		truth bool
-		code  int64
-		name  string
-	}{{denied, true, 403, "access denied => 403"}, {auth, false, 401, "unauthorized => 401"}} {
-		found := false
-		// the deny edge may live in ServeHTTP or in a helper of package proxy that ServeHTTP calls
-		hosts := []*ssa.Function{serve}
-		for f := range c.reach(serve) {
-			if f != serve && rootPkg(f) == c.spkg("proxy") {
-				hosts = append(hosts, f)
-			}
-		}
-		for _, hf := range hosts {
-			for _, b := range hf.Blocks {
-				if factCallTo(b, g.fn, g.truth) == nil {
-					continue
-				}
-				for _, i := range b.Instrs {
-					cc := callCommon(i)
-					if cc != nil && calleeName(cc) == "net/http.Error" && len(cc.Args) == 3 {
-						code, _ := constInt(cc.Args[2])
-						_, isRet := b.Instrs[len(b.Instrs)-1].(*ssa.Return)
-						found = true
-						c.check("C12.S1", "proxy.(*HTTPProxy).ServeHTTP|"+g.name, i.Pos(), code == g.code && isRet,
-							fmt.Sprintf("the deny edge must answer %d and return; got status %d, returns=%v", g.code, code, isRet))
-					}
-				}
-			}
-		}
-		if !found {
-			c.check("C12.S1", "proxy.(*HTTPProxy).ServeHTTP|"+g.name, serve.Pos(), false, "no http.Error response on the deny edge")
-		}
-	}
-}
-
-func runC12G2(c *Ctx) {
-	deniedTCP := c.method("route", "Target", "AccessDeniedTCP")
-	if !c.need("C12.G2", deniedTCP, "route.Target.AccessDeniedTCP") {
-		return
-	}
-	nImpl := 0
-	for _, f := range c.AllFns {
-		if f.Name() != "ServeTCP" || f.Signature.Recv() == nil || f.Pkg != c.spkg("proxy/tcp") {
-			continue
-		}
-		sites := c.contactSites(f)
-		if len(sites) == 0 {
-			continue // adapter (HandlerFunc)
-		}
-		nImpl++
-		for i, how := range sites {
-			key := fnKey(f) + "|" + siteKey(how)
-			gc := factCallTo(i.Block(), deniedTCP, false)
-			ok := gc != nil
-			detail := how + " must be dominated by AccessDeniedTCP()==false"
-			if ok {
-				t := gc.Call.Args[0]
-				if !derivesFromLookup(t) {
-					ok, detail = false, how+": the gate must be applied to the looked-up target"
-				} else if cc := callCommon(i); cc != nil && len(cc.Args) >= 2 {
-					// the dialled address must come from the gated target
-					addr := cc.Args[1]
-					if !derives(addr, func(v ssa.Value) bool { return v == t }) {
-						ok, detail = false, how+": the dialled address does not derive from the target that passed the access gate"
-					}
-				}
-			}
-			c.check("C12.G2", key, i.Pos(), ok, detail)
-		}
-	}
-	c.atLeast("C12.G2", "tcp.Handler implementations that dial", nImpl, 3)
-}
-
 func derivesFromLookup(v ssa.Value) bool {
 	return derives(v, isLookupFieldCall)
 }
-
-func runC12F(c *Ctx) {
-	// ---- F1: Authorized fails closed
-	auth := c.method("route", "Target", "Authorized")
-	if c.need("C12.F1", auth, "route.Target.Authorized") {
-		n := 0
-		eachInstr(auth, func(i ssa.Instruction) {
-			r, ok := i.(*ssa.Return)
-			if !ok || len(r.Results) != 1 {
-				return
-			}
-			n++
-			key := "route.(*Target).Authorized|return"
-			if bv, isConst := constBool(r.Results[0]); isConst {
-				if !bv {
-					c.check("C12.F1", key+" false", r.Pos(), true, "deny")
-					return
-				}
-				// `return true` only when no scheme is configured: fact AuthScheme == ""
-				ok := false
-				for _, f := range factsAt(r.Block()) {
-					if b, isB := f.Cond.(*ssa.BinOp); isB && b.Op == token.EQL && f.Truth {
-						_, isF := fieldOf(b.X, "route.Target", "AuthScheme")
-						if s, isS := constString(b.Y); isF && isS && s == "" {
-							ok = true
-						}
-					}
-				}
-				c.check("C12.F1", key+" true", r.Pos(), ok, "Authorized may return true unconditionally only when no auth scheme is configured (AuthScheme == \"\"); an unknown scheme must reject")
-				return
-			}
-			// otherwise must be the scheme's verdict
-			call, isCall := r.Results[0].(*ssa.Call)
-			ok = isCall && call.Call.IsInvoke() && call.Call.Method.Name() == "Authorized"
-			c.check("C12.F1", key+" scheme verdict", r.Pos(), ok, "a non-constant result must be the configured scheme's Authorized verdict")
-		})
-		c.atLeast("C12.F1", "returns in Target.Authorized", n, 2)
-	}
-
-	// ---- F1/F3: denyByIP
-	deny := c.method("route", "Target", "denyByIP")
-	if c.need("C12.F3", deny, "route.Target.denyByIP") {
-		runDenyByIP(c, deny)
-	}
-
-	// ---- X1: XFF loop in AccessDeniedHTTP
-	adh := c.method("route", "Target", "AccessDeniedHTTP")
-	if c.need("C12.X1", adh, "route.Target.AccessDeniedHTTP") {
-		nLoops := 0
-		for _, l := range loopsOf(adh) {
-			// the loop ranging over the split X-Forwarded-For value
-			nLoops++
-			for b := range l.Body {
-				for _, s := range b.Succs {
-					if l.Body[s] || b == l.Head {
-						continue
-					}
-					bv, isRet := returnsConstBool(s)
-					c.check("C12.X1", "route.(*Target).AccessDeniedHTTP|loop exit", s.Instrs[len(s.Instrs)-1].Pos(), isRet && bv,
-						"the X-Forwarded-For loop may be left early only by denying (return true); a break/return false lets an address behind a denied hop pass unchecked")
-				}
-			}
-		}
-		c.atLeast("C12.X1", "loops in AccessDeniedHTTP", nLoops, 1)
-		// every denyByIP verdict inside is honoured: each call's true edge returns true
-		nCalls := 0
-		eachInstr(adh, func(i ssa.Instruction) {
-			if !staticCalleeIs(i, deny) {
-				return
-			}
-			nCalls++
-			call := i.(*ssa.Call)
-			ok := false
-			for _, b := range adh.Blocks {
-				for _, f := range factsAt(b) {
-					if f.Cond == call && f.Truth {
-						if bv, isRet := returnsConstBool(b); isRet && bv {
-							ok = true
-						}
-					}
-				}
-			}
-			c.check("C12.X1", "route.(*Target).AccessDeniedHTTP|denyByIP verdict honoured", i.Pos(), ok, "a true verdict of denyByIP must make AccessDeniedHTTP return true")
-		})
-		c.atLeast("C12.X1", "denyByIP calls in AccessDeniedHTTP", nCalls, 2)
-	}
-
-	// ---- F2: addTarget must not keep a target unrestricted after a rule error
-	runC12F2(c)
-}
-
-func runDenyByIP(c *Ctx, deny *ssa.Function) {
-	// classify comma-ok lookups of accessRules by constant key
-	lookupKey := func(v ssa.Value) (string, bool) {
-		e, ok := v.(*ssa.Extract)
-		if !ok || e.Index != 1 {
-			return "", false
-		}
-		lk, ok := e.Tuple.(*ssa.Lookup)
-		if !ok || !lk.CommaOk {
-			return "", false
-		}
-		if _, isF := fieldOf(lk.X, "route.Target", "accessRules"); !isF {
-			return "", false
-		}
-		return constString(lk.Index)
-	}
-	isContains := func(v ssa.Value) bool {
-		call, ok := v.(*ssa.Call)
-		return ok && calleeName(&call.Call) == "(*net.IPNet).Contains"
-	}
-	var ipParam *ssa.Parameter
-	for _, p := range deny.Params {
-		if typeStr(p.Type()) == "net.IP" {
-			ipParam = p
-		}
-	}
-	nRet := 0
-	eachInstr(deny, func(i ssa.Instruction) {
-		r, ok := i.(*ssa.Return)
-		if !ok || len(r.Results) != 1 {
-			return
-		}
-		bv, isConst := constBool(r.Results[0])
-		if !isConst {
-			c.check("C12.F3", "route.(*Target).denyByIP|non-constant return", r.Pos(), false, "denyByIP must return constant verdicts so that the decision structure is checkable")
-			return
-		}
-		nRet++
-		var inAllow, inDeny, contains, ipNil, noRules bool
-		for _, f := range factsAt(r.Block()) {
-			if k, ok := lookupKey(f.Cond); ok && f.Truth {
-				if k == "allow:ip" {
-					inAllow = true
-				}
-				if k == "deny:ip" {
-					inDeny = true
-				}
-			}
-			if isContains(f.Cond) && f.Truth {
-				contains = true
-			}
-			if ipParam != nil {
-				if nn, ok := nilFact(f, sameVal(ipParam)); ok && !nn {
-					ipNil = true
-				}
-			}
-			// len(accessRules) == 0
-			if b, isB := f.Cond.(*ssa.BinOp); isB && b.Op == token.EQL && f.Truth {
-				if call, isCall := b.X.(*ssa.Call); isCall && calleeName(&call.Call) == "builtin.len" {
-					if _, isF := fieldOf(call.Call.Args[0], "route.Target", "accessRules"); isF {
-						if n, ok := constInt(b.Y); ok && n == 0 {
-							noRules = true
-						}
-					}
-				}
-			}
-		}
-		switch {
-		case noRules:
-			c.check("C12.F3", "route.(*Target).denyByIP|no rules", r.Pos(), !bv, "without rules nothing is denied")
-		case ipNil:
-			c.check("C12.F1", "route.(*Target).denyByIP|ip == nil", r.Pos(), bv,
-				"an address that could not be parsed (nil IP; e.g. zone-scoped IPv6 'fe80::1%eth0' from RemoteAddr) must be denied when rules are configured; returning false lets it bypass an allow list")
-		case inAllow:
-			if contains {
-				c.check("C12.F3", "route.(*Target).denyByIP|allow match", r.Pos(), !bv, "an address inside an allow block is admitted")
-			} else {
-				c.check("C12.F3", "route.(*Target).denyByIP|allow list exhausted", r.Pos(), bv, "with an allow list, an address outside every block must be denied (return true)")
-			}
-		case inDeny && contains:
-			c.check("C12.F3", "route.(*Target).denyByIP|deny match", r.Pos(), bv, "an address inside a deny block must be denied (return true)")
-		default:
-			// fall-through default
-			c.check("C12.F3", "route.(*Target).denyByIP|default", r.Pos(), !bv, "default: not denied")
-		}
-	})
-	c.atLeast("C12.F3", "constant returns in denyByIP", nRet, 4)
-	// the nil-IP case must be decided before any rule loop: there must be a return under ip==nil, or
-	// the nil test must not short-circuit to allow together with the no-rules test
-	if ipParam != nil {
-		seenNilDeny := false
-		for _, o := range c.Obs {
-			if o.Rule == "C12.F1" && o.Construct == "route.(*Target).denyByIP|ip == nil" {
-				seenNilDeny = true
-			}
-		}
-		if !seenNilDeny {
-			// `if ip == nil || len(rules) == 0 { return false }`: the return block has two predecessors, no fact.
-			// Find a return false reachable directly from the ip==nil true edge.
-			for _, b := range deny.Blocks {
-				if len(b.Instrs) == 0 {
-					continue
-				}
-				iff, ok := b.Instrs[len(b.Instrs)-1].(*ssa.If)
-				if !ok {
-					continue
-				}
-				if nn, isNil := nilFact(Fact{iff.Cond, true}, sameVal(ipParam)); isNil && !nn {
-					if bv, isRet := returnsConstBool(b.Succs[0]); isRet {
-						c.check("C12.F1", "route.(*Target).denyByIP|ip == nil", iff.Pos(), bv,
-							"an address that could not be parsed (nil IP; e.g. zone-scoped IPv6 'fe80::1%eth0' from RemoteAddr) must be denied when rules are configured; `ip == nil || len(rules) == 0 => return false` lets it bypass an allow list")
-						seenNilDeny = true
-					}
-				}
-			}
-		}
-		if !seenNilDeny {
-			c.undecided("C12.F1", "route.(*Target).denyByIP|ip == nil", "no decision on a nil IP found in denyByIP (net.IPNet.Contains(nil) is false, so an allow list would deny; a deny list would admit)")
-		}
-	}
-}
-
-func runC12F2(c *Ctx) {
-	add := c.method("route", "Route", "addTarget")
-	par := c.method("route", "Target", "ProcessAccessRules")
-	if !c.need("C12.F2", add, "route.Route.addTarget") || !c.need("C12.F2", par, "route.Target.ProcessAccessRules") {
-		return
-	}
-	n := 0
-	eachInstr(add, func(i ssa.Instruction) {
-		if !staticCalleeIs(i, par) {
-			return
-		}
-		n++
-		call := i.(*ssa.Call)
-		// blocks where err != nil is known for this call's result
-		var errBlocks []*ssa.BasicBlock
-		for _, b := range add.Blocks {
-			for _, f := range factsAt(b) {
-				if nn, ok := nilFact(f, func(v ssa.Value) bool { return derivesErrOf(v, call) }); ok && nn {
-					errBlocks = append(errBlocks, b)
-					break
-				}
-			}
-		}
-		if len(errBlocks) == 0 {
-			c.check("C12.F2", "route.(*Route).addTarget|ProcessAccessRules error ignored", i.Pos(), false, "the error of ProcessAccessRules is not examined: an unparsable rule leaves the target unrestricted")
-			return
-		}
-		// On the error edge there must be an instruction making the target deny-all (a store to / call on the
-		// target that dominates the append), or the function must return without appending.
-		ok := false
-		for _, b := range errBlocks {
-			for _, in := range b.Instrs {
-				switch x := in.(type) {
-				case *ssa.Store:
-					if _, isF := fieldOf(x.Addr, "route.Target", "accessRules"); isF {
-						ok = true
-					}
-				case *ssa.Call:
-					if sc := x.Call.StaticCallee(); sc != nil && isRepoFn(sc) && sc.Signature.Recv() != nil && namedIs(sc.Signature.Recv().Type(), "route.Target") && writesField(sc, "route.Target", "accessRules") {
-						ok = true
-					}
-				case *ssa.Return:
-					ok = true
-				}
-			}
-		}
-		c.check("C12.F2", "route.(*Route).addTarget|rule error => deny-all", i.Pos(), ok,
-			"on the error edge of ProcessAccessRules (e.g. allow=ip:10.0.0.0/33) the target is still appended with empty or partial rules => unrestricted; the edge must install a deny-all rule set or reject the target")
-	})
-	c.atLeast("C12.F2", "ProcessAccessRules calls in addTarget", n, 1)
-}
-
-func derivesErrOf(v ssa.Value, call *ssa.Call) bool {
-	if v == call {
-		return true
-	}
-	return derives(v, func(x ssa.Value) bool { return x == call })
-}
-
-func writesField(f *ssa.Function, typ, field string) bool {
-	found := false
-	eachInstr(f, func(i ssa.Instruction) {
-		if st, ok := i.(*ssa.Store); ok {
-			if _, isF := fieldOf(st.Addr, typ, field); isF {
-				found = true
-			}
-		}
-	})
-	return found
-}
-
-var _ = types.Typ
